@@ -90,6 +90,9 @@ int main(void)
 	CONST(SM2_MAX_PLAINTEXT_SIZE); CONST(SM2_MAX_SIGNATURE_SIZE); CONST(SM2_MAX_CIPHERTEXT_SIZE);
 	CONST(SM2_MAX_ID_LENGTH); CONST(SM2_signature_typical_size);
 	CONST(SM9_SIGNATURE_SIZE); CONST(SM9_MAX_PLAINTEXT_SIZE); CONST(SM9_MAX_CIPHERTEXT_SIZE);
+	SZ(SM9_Z256_AFFINE_POINT); CONST(SM9_SIGN_MASTER_KEY_MAX_SIZE); CONST(SM9_SIGN_MASTER_PUBLIC_KEY_SIZE);
+	CONST(SM9_SIGN_KEY_SIZE); CONST(SM9_ENC_MASTER_KEY_MAX_SIZE); CONST(SM9_ENC_MASTER_PUBLIC_KEY_SIZE);
+	CONST(SM9_ENC_KEY_SIZE);
 	CONST(OID_sm2); CONST(OID_sm3); CONST(OID_sm4_cbc); CONST(OID_sm2sign_with_sm3);
 	CONST(OID_cms_data); CONST(OID_any_policy);
 	CONST(ASN1_TAG_SEQUENCE); CONST(ASN1_TAG_INTEGER);
